@@ -171,3 +171,278 @@ def nonneg(pe, a):
 
 for _n in ('dtype_ok', 'is_unsigned_coords', 'nonneg'):
 	NS[_n] = globals()[_n]
+
+
+# ---- k-mer search (C01, C06) ---------------------------------------------------------------------------
+from pyvc.values import Record, SRec, Ref
+
+
+def _f(pe, rec, name):
+	"""field of a (heap or symbolic) record"""
+	return pe.attr(rec, name)
+
+
+def _ks(pe, ks):
+	P = _arr(_f(pe, ks, 'prefix'))
+	return int_term(_f(pe, ks, 'k')), P, P.length
+
+
+def wf_kspec(pe, ks):
+	k, P, L = _ks(pe, ks)
+	j = z3.Int(fresh_name('j'))
+	pl, tl, nk = int_term(_f(pe, ks, 'prefix_len')), int_term(_f(pe, ks, 'total_len')), int_term(_f(pe, ks, 'nkmers'))
+	return SBool(z3.And(k >= 1, k <= 32, L >= 1, L < 2 ** 31, pl == L, tl == k + L, nk == S.pow4(k),
+		z3.ForAll([j], z3.Implies(z3.And(j >= 0, j < L), z3.Or(*[P.at(j) == c for c in b'ACGT'])))))
+
+
+def _U(seq):
+	"""the case-folded text that is searched: UP(bytes of seq)"""
+	seq = _arr(seq)
+	return S.uparr(seq.arr), seq.off, seq.length
+
+
+def fwd(pe, ks, seq, p):
+	"""the prefix occurs on the forward strand at p with room for a k-mer after it"""
+	k, P, L = _ks(pe, ks)
+	U, o, n = _U(seq)
+	p = int_term(p)
+	return SBool(z3.And(p >= 0, p + L + k <= n, S.occ(U, o, P.arr, P.off, L, p)))
+
+
+def rev(pe, ks, seq, q):
+	"""the reverse complement of the prefix occurs at q with room for a k-mer before it"""
+	k, P, L = _ks(pe, ks)
+	U, o, n = _U(seq)
+	q = int_term(q)
+	return SBool(z3.And(q >= k, q + L <= n, S.occrc(U, o, P.arr, P.off, L, q)))
+
+
+def fwdh(pe, ks, hay, p):
+	k, P, L = _ks(pe, ks)
+	hay = _arr(hay)
+	p = int_term(p)
+	return SBool(z3.And(p >= 0, p + L + k <= hay.length, S.occ(hay.arr, hay.off, P.arr, P.off, L, p)))
+
+
+def revh(pe, ks, hay, prc, q):
+	k, P, L = _ks(pe, ks)
+	hay, prc = _arr(hay), _arr(prc)
+	q = int_term(q)
+	return SBool(z3.And(q >= k, q + L <= hay.length, S.occ(hay.arr, hay.off, prc.arr, prc.off, L, q)))
+
+
+def hay_equiv(pe, ks, hay, seq):
+	"""searching the code's haystack is searching UP(seq): same occurrences of the prefix and of its reverse complement"""
+	k, P, L = _ks(pe, ks)
+	hay = _arr(hay)
+	U, o, n = _U(seq)
+	p = z3.Int(fresh_name('p'))
+	return SBool(z3.And(hay.length == n, z3.ForAll([p], z3.Implies(z3.And(p >= 0, p + L <= n), z3.And(
+		S.occ(hay.arr, hay.off, P.arr, P.off, L, p) == S.occ(U, o, P.arr, P.off, L, p),
+		S.occrc(hay.arr, hay.off, P.arr, P.off, L, p) == S.occrc(U, o, P.arr, P.off, L, p))))))
+
+
+def rc_equiv(pe, ks, hay, prc):
+	"""an occurrence of the byte string revcomp(prefix) is an occurrence of the prefix's reverse complement"""
+	k, P, L = _ks(pe, ks)
+	hay, prc = _arr(hay), _arr(prc)
+	p = z3.Int(fresh_name('p'))
+	return SBool(z3.And(prc.length == L, z3.ForAll([p], z3.Implies(z3.And(p >= 0, p + L <= hay.length),
+		S.occ(hay.arr, hay.off, prc.arr, prc.off, L, p) == S.occrc(hay.arr, hay.off, P.arr, P.off, L, p)))))
+
+
+def no_lower_nuc(pe, hay, n):
+	hay = _arr(hay)
+	j = z3.Int(fresh_name('j'))
+	return SBool(z3.ForAll([j], z3.Implies(z3.And(j >= 0, j < int_term(n)), z3.And(*[hay.at(j) != c for c in b'acgt']))))
+
+
+# kvalid / kindex are opaque in contracts (uninterpreted): only kmer_index's own verification and the
+# C06 lemmas need their definitions, which reveal_k() provides for one match at a time.
+KVALID = z3.Function('kvalid', IntArr, I, I, I, I, B, B)   # (seq array, origin, k, L, pos, reverse)
+KINDEX = z3.Function('kindex', IntArr, I, I, I, I, B, I)
+
+
+def _rv(reverse):
+	r = truth(reverse)
+	return z3.BoolVal(r) if isinstance(r, bool) else r
+
+
+def kvalid(pe, ks, seq, pos, reverse):
+	"""the k-mer of the match (pos, reverse) consists of ACGTacgt only"""
+	k, P, L = _ks(pe, ks)
+	seq = _arr(seq)
+	return SBool(KVALID(seq.arr, seq.off, k, L, int_term(pos), _rv(reverse)))
+
+
+def kindex(pe, ks, seq, pos, reverse):
+	"""index of the k-mer of the match: forward code of seq[pos+L : pos+L+k], or reverse-complement code of seq[pos-L-k+1 : pos-L+1]"""
+	k, P, L = _ks(pe, ks)
+	seq = _arr(seq)
+	return SInt(KINDEX(seq.arr, seq.off, k, L, int_term(pos), _rv(reverse)))
+
+
+def reveal_k(pe, ks, seq, pos, reverse):
+	"""definitions of kvalid / kindex for one match"""
+	k, P, L = _ks(pe, ks)
+	seq = _arr(seq)
+	pos = int_term(pos)
+	r = _rv(reverse)
+	fv, bv = S.allnuc(seq.arr, seq.off + pos + L, k), S.allnuc(seq.arr, seq.off + pos - L - k + 1, k)
+	fi, bi = S.enc(seq.arr, seq.off + pos + L, k), S.encrc(seq.arr, seq.off + pos - L - k + 1, k, k)
+	return SBool(z3.And(KVALID(seq.arr, seq.off, k, L, pos, r) == z3.If(r, bv, fv),
+	                    KINDEX(seq.arr, seq.off, k, L, pos, r) == z3.If(r, bi, fi)))
+
+
+def sig(pe, ks, seq, x):
+	"""x is in the signature of seq: the index of a valid k-mer directly following an occurrence of the prefix on either strand"""
+	k, P, L = _ks(pe, ks)
+	sq = _arr(seq)
+	U, o, n = _U(seq)
+	x = int_term(x)
+	p, q = z3.Int(fresh_name('p')), z3.Int(fresh_name('q'))
+	T, F = z3.BoolVal(True), z3.BoolVal(False)
+	f = z3.Exists([p], z3.And(p >= 0, p + L + k <= n, S.occ(U, o, P.arr, P.off, L, p),
+		KVALID(sq.arr, sq.off, k, L, p, F), x == KINDEX(sq.arr, sq.off, k, L, p, F)))
+	r = z3.Exists([q], z3.And(q >= k, q + L <= n, S.occrc(U, o, P.arr, P.off, L, q),
+		KVALID(sq.arr, sq.off, k, L, q + L - 1, T), x == KINDEX(sq.arr, sq.off, k, L, q + L - 1, T)))
+	return SBool(z3.Or(f, r))
+
+
+def match_wf(pe, ks, seq, pos, reverse):
+	"""a match as find_kmers yields it: the whole prefix + k-mer window lies inside the sequence"""
+	k, P, L = _ks(pe, ks)
+	n = _arr(seq).length
+	pos = int_term(pos)
+	r = truth(reverse)
+	f = z3.And(pos >= 0, pos + L + k <= n)
+	b = z3.And(pos - L - k + 1 >= 0, pos < n)
+	if isinstance(r, bool):
+		return SBool(b if r else f)
+	return SBool(z3.If(r, b, f))
+
+
+# ---- accumulators -------------------------------------------------------------------------------------------
+
+def acchas(pe, acc, x):
+	"""abstract view of an accumulator: x has been added"""
+	if acc is None:
+		return False
+	acc = pe.deref(acc)
+	x = int_term(x)
+	if acc.cls.endswith('ArrayAccumulator'):
+		a = _arr(pe.deref(acc.fields['array']))
+		return SBool(z3.And(x >= 0, x < a.length, a.at(x) != 0))
+	if acc.cls.endswith('SetAccumulator'):
+		s = pe.deref(acc.fields['set'])
+		from pyvc.values import EmptySet, SSet
+		if isinstance(s, EmptySet):
+			return False
+		return SBool(s.has(x))
+	raise Unsupported(f'acchas of {acc!r}')
+
+
+def wf_acc(pe, acc):
+	acc = pe.deref(acc)
+	k = int_term(acc.fields['k'])
+	dt = acc.fields['_dtype']
+	hi = dt.ctype.hi
+	base = z3.And(k >= 1, k <= 32, S.pow4(k) - 1 <= hi)
+	if acc.cls.endswith('ArrayAccumulator'):
+		a = _arr(pe.deref(acc.fields['array']))
+		j = z3.Int(fresh_name('j'))
+		return SBool(z3.And(base, a.length == S.pow4(k), z3.ForAll([j], z3.Or(z3.Select(a.arr, j) == 0, z3.Select(a.arr, j) == 1))))
+	s = pe.deref(acc.fields['set'])
+	from pyvc.values import EmptySet
+	if isinstance(s, EmptySet):
+		return SBool(base)
+	x = z3.Int(fresh_name('x'))
+	return SBool(z3.And(base, z3.ForAll([x], z3.Implies(s.has(x), z3.And(x >= 0, x < S.pow4(k))))))
+
+
+def acc_dtype_is(pe, arr, acc):
+	acc = pe.deref(acc)
+	return _arr(arr).elem is not None and _arr(arr).elem.name == acc.fields['_dtype'].ctype.name
+
+
+def result_dtype_ok(pe, arr, acc, k):
+	"""dtype of the result: the accumulator's dtype if one was supplied, else the smallest unsigned type for k"""
+	from pyvc.libspec.np import dtype_of
+	if acc is None:
+		return is_index_dtype(pe, dtype_of(_arr(arr)), k)
+	return acc_dtype_is(pe, arr, acc)
+
+
+def all_short(pe, seqs):
+	"""every sequence is shorter than 2^31 (C int counters in revcomp)"""
+	if isinstance(seqs, SArr):
+		return SBool(seqs.length < 2 ** 31)
+	j = z3.Int(fresh_name('j'))
+	return SBool(z3.ForAll([j], z3.Implies(z3.And(j >= 0, j < seqs.length), seqs.at(j).length < 2 ** 31)))
+
+
+def sigany(pe, ks, seqs, x, upto=None):
+	"""x is in the signature of one of the sequences (of the first `upto` ones)"""
+	if isinstance(seqs, SArr):
+		return sig(pe, ks, seqs, x)
+	j = z3.Int(fresh_name('j'))
+	n = seqs.length if upto is None else int_term(upto)
+	saved = dict(pe.bound)
+	return SBool(z3.Exists([j], z3.And(j >= 0, j < n, truth(sig(pe, ks, seqs.at(j), x)))))
+
+
+NS['result_dtype_ok'] = result_dtype_ok
+NS['all_short'] = all_short
+NS['sigany'] = sigany
+
+
+def is_index_dtype(pe, dt, k):
+	"""dt is the smallest unsigned integer dtype able to hold 4^k - 1 (None above 32)"""
+	k = int_term(k)
+	if dt is None:
+		return SBool(k > 32)
+	if dt.kind != 'u':
+		return False
+	b = 8 * dt.itemsize
+	smaller = {8: None, 16: 8, 32: 16, 64: 32}[b]
+	fits = S.pow4(k) - 1 <= (1 << b) - 1
+	least = z3.BoolVal(True) if smaller is None else S.pow4(k) - 1 > (1 << smaller) - 1
+	return SBool(z3.And(k <= 32, fits, least))
+
+
+def elem_set_is(pe, arr, pred_name):
+	raise Unsupported('elem_set_is')
+
+
+for _n in ('reveal_k', 'wf_kspec', 'fwd', 'rev', 'fwdh', 'revh', 'hay_equiv', 'rc_equiv', 'no_lower_nuc', 'kvalid', 'kindex', 'sig',
+           'match_wf', 'acchas', 'wf_acc', 'acc_dtype_is', 'is_index_dtype'):
+	NS[_n] = globals()[_n]
+
+
+def _zero_origin(*arrs):
+	for a in arrs:
+		if not (z3.is_int_value(a.off) and a.off.as_long() == 0):
+			raise Unsupported('lemma instance for a sliced array (the lemma is proved for origin 0)')
+
+
+def hay_equiv_lemma(pe, ks, hay, seq):
+	"""instance of lemma C01/lemma/hay-equiv: a haystack without a/c/g/t bytes that equals seq has the same prefix
+	occurrences (both strands) as UP(seq)"""
+	k, P, L = _ks(pe, ks)
+	hay = _arr(hay)
+	sq = _arr(seq)
+	_zero_origin(hay, sq, P)
+	same = z3.And(hay.length == sq.length, hay.arr == sq.arr, hay.off == sq.off)
+	hyp = z3.And(same, truth(no_lower_nuc(pe, hay, hay.length)), truth(wf_kspec(pe, ks)))
+	return SBool(z3.Implies(hyp, truth(hay_equiv(pe, ks, hay, seq))))
+
+
+def rc_equiv_lemma(pe, ks, hay, prc):
+	"""instance of lemma C01/lemma/rc-equiv"""
+	k, P, L = _ks(pe, ks)
+	_zero_origin(_arr(hay), _arr(prc), P)
+	return SBool(z3.Implies(truth(is_rc(pe, prc, P)), truth(rc_equiv(pe, ks, hay, prc))))
+
+
+NS['hay_equiv_lemma'] = hay_equiv_lemma
+NS['rc_equiv_lemma'] = rc_equiv_lemma
